@@ -165,6 +165,25 @@ def same_arrays(A, B):
     return all(is_zero(a - b) for a, b in zip(A.reshape(-1), B.reshape(-1)))
 
 
+def _same_lists(a, b):
+    return len(a) == len(b) and all((x is None and y is None) or (x is not None and y is not None and same_arrays(x, y)) for x, y in zip(a, b))
+
+
+def history_obligation(col, it, umat, label, cls, x1, x2, ngrad=None):
+    """O1h: gradient / hessian are functions of their argument only -- an evaluation at another state in between (no cached intermediate
+    of an earlier call is re-used for a different input)"""
+    def chk():
+        g1 = [None if a is None else npmodel.to_obj(np.asarray(a)).copy() for a in it.call_method(umat, "gradient", [list(x1)])[:ngrad]]
+        h1 = [None if a is None else npmodel.to_obj(np.asarray(a)).copy() for a in it.call_method(umat, "hessian", [list(x1)])]
+        it.call_method(umat, "gradient", [list(x2)])
+        h1b = [None if a is None else npmodel.to_obj(np.asarray(a)) for a in it.call_method(umat, "hessian", [list(x1)])]
+        it.call_method(umat, "hessian", [list(x2)])
+        g1b = [None if a is None else npmodel.to_obj(np.asarray(a)) for a in it.call_method(umat, "gradient", [list(x1)])[:ngrad]]
+        okh, okg = _same_lists(h1, h1b), _same_lists(g1, g1b)
+        return okh and okg, "%s: %s at a state depends on an earlier evaluation at another state" % (method_where(cls, "hessian" if not okh else "gradient"), "hessian" if not okh else "gradient")
+    col.check("C03.O1h", "%s evaluation history" % label, "gradient(x) and hessian(x) do not depend on evaluations made before at other states (gradient(y) then hessian(x), hessian(y) then gradient(x))", chk)
+
+
 def hyper_obligations(col, it, umat, label, cls, has_function=True, out_variants=True, statevars=None):
     F = Fsym()
     F0 = F.copy()
@@ -191,6 +210,7 @@ def hyper_obligations(col, it, umat, label, cls, has_function=True, out_variants
             r = it.call_method(umat, "hessian", [[F, sv]], dict(out=buf))[0]
             return same_arrays(r, A_) and same_arrays(F, F0), "hessian(out=dirty buffer) differs from hessian() or input modified"
         col.check("C03.O1o", "%s.hessian out=" % label, "a supplied (dirty) out buffer yields the same elasticity", h_out)
+    history_obligation(col, it, umat, label, cls, [F, sv], [Fsym(name="G"), sv], ngrad=1)
     return F, P_, A_
 
 
@@ -466,6 +486,8 @@ def run_threefield(col, blocks):
     which = ["FF"] if blocks.startswith("grad") else ["Fp", "FJ", "pp"]
     mixed_block_obligations(col, label, cls, F, p, J, g[:3], h, which=which)
     col.add("C03.O1u", "%s inputs (%s)" % (label, blocks), "F unchanged", same_arrays(F, F0))
+    if blocks.startswith("grad"):
+        history_obligation(col, it, umat, label, cls, [F, p, J, sv], [Fsym(name="G"), scalar_field("p2", positive=False), scalar_field("J2"), sv], ngrad=3)
     finish_info(col, it)
 
 
@@ -499,6 +521,13 @@ def run_ogden(col, case):
     else:
         col.add("C03.O6", "%s state" % label, "new stored maximum == old maximum", is_zero(g[1][0, 0, 0] - Wold[0, 0]))
     col.add("C03.O1u", "%s inputs" % label, "F and committed state unchanged", same_arrays(F, F0) and same_arrays(sv, sv0))
+    npmodel.MAX_CASE[0] = "second" if case == "unloading" else "first"
+    try:
+        sv2 = np.empty((1, 1, 1), dtype=object)
+        sv2[0] = scalar_field("Wmax_b")
+        history_obligation(col, it, umat, label, cls, [F, sv], [Fsym(name="G"), sv2], ngrad=2)
+    finally:
+        npmodel.MAX_CASE[0] = None
     finish_info(col, it)
 
 
